@@ -279,17 +279,23 @@ example : (4 : Nat) * 3 < 2 ^ 64 := by decide
 /-- **no overflow, no index out of range, no failed `unwrap`/`assert!` in the regenerated sponge code** (the `_ok` twins,
     until now only evaluated by the driver): on every state of 16 canonical words the regenerated Tip5 permutation — every
     `for` loop of `split_and_lookup`, `sbox_layer`, `mds_generated` with its 128-bit recombination, `round`, `permutation` —
-    has a true flag, hence so have `squeeze`, `absorb` (canonical 10-element block) and `sample_scalars` (`3·num < 2^64`):
+    has a true flag, hence so have `squeeze`, `absorb` (canonical 10-element block), `sample_scalars` (`3·num < 2^64`),
+    `pad_and_absorb_all` and `hash_varlen` (canonical input that fits in memory):
     debug and release builds agree on them -/
 theorem gen_sponge_ok {st : List Nat} (hl : st.length = 16) (hc : ∀ x ∈ st, x < P) :
     TF.Gen.Loops.tip5_permutation_ok (enc st) = true ∧
     TF.Gen.Loops.tip5_squeeze_ok (enc st) = true ∧
     (∀ block : List Nat, block.length = 10 → (∀ x ∈ block, x < P) →
       TF.Gen.Loops.tip5_absorb_ok (enc st) (enc block) = true) ∧
-    (∀ num : Nat, num * 3 < 2 ^ 64 → TF.Gen.Loops.tip5_sample_scalars_ok (enc st) num = true) :=
+    (∀ num : Nat, num * 3 < 2 ^ 64 → TF.Gen.Loops.tip5_sample_scalars_ok (enc st) num = true) ∧
+    (∀ input : List Nat, (∀ x ∈ input, x < P) → input.length + 10 < 2 ^ 64 →
+      TF.Gen.Loops.tip5_pad_and_absorb_all_ok (enc st) (enc input) = true ∧
+      TF.Gen.Loops.tip5_hash_varlen_ok (enc input) = true) :=
   ⟨TF.GenBridge.SpongeOk.permutation_ok_enc hl hc, TF.GenBridge.SpongeOk.squeeze_ok hl hc,
     fun _ hbl hbc => TF.GenBridge.SpongeOk.absorb_ok hl hc hbl hbc,
-    fun num hnum => TF.GenBridge.SpongeOk.sample_scalars_ok hl hc num hnum⟩
+    fun num hnum => TF.GenBridge.SpongeOk.sample_scalars_ok hl hc num hnum,
+    fun _ hi hlen => ⟨TF.GenBridge.SpongeOk.pad_and_absorb_all_ok hl hc hi hlen,
+      TF.GenBridge.SpongeOk.hash_varlen_ok hi hlen⟩⟩
 /-- non-vacuity on the all-`(P − 1)` state; the length hypothesis is needed: on a 15-word state the flag is false -/
 example : TF.Gen.Loops.tip5_permutation_ok (enc (List.replicate 16 (P - 1))) = true ∧
     TF.Gen.Loops.tip5_permutation_ok (enc (List.replicate 15 0)) = false := by decide +kernel
